@@ -12,7 +12,7 @@ import (
 	"github.com/bool64/cache"
 )
 
-const c03Rule = "the complete consistent product entry state {absent, fresh, expired-acceptable, expired-too-old} x failure cache {empty, hit} x SyncUpdate x FailHard x MaxStaleness {0,set} x FailedUpdateTTL {cached, -1} x builder {ok, err} x 3 frontend/backend variants is enumerated by an outer loop (every cell visited, else harness error); " +
+const c03Rule = "the complete consistent product entry state {absent, fresh, expired-acceptable, expired-too-old} x failure cache {empty, hit} x SyncUpdate x FailHard x MaxStaleness {0,set} x FailedUpdateTTL {cached, -1} x builder {ok, err} x 5 frontend/backend variants (Failover over ShardedMap/SyncMap, FailoverOf[string] over ShardedMapOf, FailoverOf[any] over ShardedMap/SyncMap) is enumerated by an outer loop (every cell visited, else harness error); " +
 	"inside a cell rapid draws key, MaxStaleness, age since expiry on both sides of MaxStaleness including +/-1ns, UpdateTTL, SyncRead, caller TTL, FailedUpdateTTL value; a builder that parks decides 'returned before the build ended'; " +
 	"oracle = decision function derived from the statement/README (result set, builder invocations, sync vs background, backend content + expiry and failure-cache content at quiescence); non-trivial = any cell other than fresh-hit and cold-miss-success"
 
@@ -36,7 +36,7 @@ var c03Cells = func() []c03Cell {
 					for ms := 0; ms < 2; ms++ {
 						for nf := 0; nf < 2; nf++ {
 							for ok := 0; ok < 2; ok++ {
-								for v := 0; v < 3; v++ {
+								for v := 0; v < nVariants; v++ {
 									if state == ksStaleOld && ms == 0 {
 										continue // no "too old" without MaxStaleness
 									}
